@@ -113,7 +113,7 @@ def measure (cfg : Cfg) (grouped : List Row) (nObs : Nat) (tie : Rat) : Measure 
   match cfg.kind with
   | .binary =>
     match chi2 grouped with
-    | none => .crash
+    | none => .nan     -- degenerate table: NaN measures (repaired; `chi2_contingency` used to raise)
     | some c =>
       if nObs == 0 then .nan else
       let v2 := c / (nObs : Nat)
